@@ -477,7 +477,8 @@ func HandleSendJoin(input HandleSendJoinInput) (*HandleSendJoinResponse, error) 
 	// If the membership content contains a user ID for a server that is not
 	// ours then we should kick it back.
 	var memberContent MemberContent
-	if err := json.Unmarshal(event.Content(), &memberContent); err != nil {
+	// member names are exact, as in NewMemberContentFromEvent
+	if err := json.Unmarshal(exactMembersOnly(event.Content(), &memberContent), &memberContent); err != nil {
 		return nil, spec.BadJSON(err.Error())
 	}
 	if memberContent.AuthorisedVia != "" {
